@@ -27,6 +27,16 @@ from sim import env  # noqa: E402
 
 os.environ["NUMBA_CACHE_DIR"] = env.numba_cache_dir("shared")
 
+# every check invocation gets its own temp directory, shared by all its runs and workers (files a library writes
+# there are shared state of the simulated fleet) and removed afterwards (nothing leaks into the next invocation)
+import atexit  # noqa: E402
+import shutil  # noqa: E402
+
+_TMP = os.path.join(env.CACHE_ROOT, "tmp", str(os.getpid()))
+os.makedirs(_TMP, exist_ok=True)
+os.environ["TMPDIR"] = _TMP
+atexit.register(shutil.rmtree, _TMP, True)
+
 PROPS = ("C01", "C02", "C03", "C04", "C05")
 QUICK_RUNS = {"C01": 96, "C02": 96, "C03": 80, "C04": 112, "C05": 96}
 THOROUGH_RUNS = {"C01": 1600, "C02": 1600, "C03": 1200, "C04": 1600, "C05": 1600}
